@@ -1305,10 +1305,23 @@ def r9(ctx):
                 "a hook's verdict) is reached only after drop_message(message) - on every path, exceptional ones "
                 "included; otherwise the tail of handle_proxied_packet neither sends nor drops/acks the message")
     from .common import inlined_funcinfo, single_def
-    f = inlined_funcinfo(repo, repo.fn("AddonManager.handle_lludp_message"), depth=2)   # claims made in split-off helpers
-    params = [a.arg for a in f.node.args.args]
+    f0 = repo.fn("AddonManager.handle_lludp_message")
+    params = [a.arg for a in f0.node.args.args]
     ctx.require(len(params) >= 2, f"{R}: handle_lludp_message lost its parameters")
-    msg = params[-1]
+    _r9_function(ctx, R, repo, f0, params[-1], 2, True)
+
+
+def _r9_function(ctx, R, repo, f0, msg, depth, top) -> bool:
+    """The R9 obligations for one function that may claim `msg` by returning a truthy constant; returns whether all
+    of them hold (so that a caller's `if helper(..): return True` can rely on the helper having dropped)."""
+    from .common import inlined_funcinfo, single_def
+    f = inlined_funcinfo(repo, f0, depth=2)   # claims made in split-off helpers that can be spliced in
+    all_ok = [True]
+    _ob = ctx.ob
+
+    def ob(rule, inst, ok, *a, **k):
+        all_ok[0] = all_ok[0] and bool(ok)
+        _ob(rule, inst, ok, *a, **k)
     cfg = CFG(f.node)
     drops = {n for n in cfg.nodes for c in cfg_node_calls(cfg, n) if call_attr(c) == "drop_message" and c.args and ap(c.args[0]) == msg}
     # `if not <msg>.finalized: drop_message(<msg>)`: the message is dropped here or was already sent / dropped
@@ -1321,7 +1334,26 @@ def r9(ctx):
                 drops.add(n)
     rets = [n for n in cfg.nodes if n.kind == "stmt" and isinstance(n.ast, ast.Return) and isinstance(n.ast.value, ast.Constant)
             and n.ast.value.value]
-    ctx.floor(R, "own claims (return <truthy constant>)", len({id(n.ast) for n in rets}), 1)
+    if top:
+        ctx.floor(R, "own claims (return <truthy constant>)", len({id(n.ast) for n in rets}), 1)
+    # `if <helper>(.., msg, ..): return True` where the helper could not be spliced in (several value returns): the helper
+    # is held to the same obligations, and when it meets them its truthy verdict stands for "dropped"
+    if depth > 0 and f0.cls is not None:
+        for x in [x for x in walk(f.node) if isinstance(x, ast.If) and x.body]:
+            t = x.test
+            if isinstance(t, ast.Call) and isinstance(t.func, ast.Attribute) and ap(t.func.value) in ("cls", "self"):
+                h = repo.lookup_method(f0.cls, t.func.attr)
+                if h is None or h is f0:
+                    continue
+                hp = [a.arg for a in h.node.args.args][1:]
+                hm = next((hp[i] for i, a in enumerate(t.args) if i < len(hp) and ap(a) == msg), None)
+                if hm is None:
+                    continue
+                claims = [r_ for r_ in walk(h.node) if isinstance(r_, ast.Return) and isinstance(r_.value, ast.Constant) and r_.value.value]
+                if claims and _r9_function(ctx, R, repo, h, hm, depth - 1, False):
+                    for n in cfg.nodes:
+                        if n.ast is x.body[0]:
+                            drops.add(n)
     loops = [l for l in walk(f.node) if isinstance(l, (ast.For, ast.AsyncFor))]
     # a message is dropped / sent once: not once per sub-item (command, block, ...) of that same message
     derived = {msg}
@@ -1340,11 +1372,11 @@ def r9(ctx):
             n_loop_sinks += 1
             cn = cfg.stmt_nodes_containing(c)
             again = cfg_search(cfg, cn, target=lambda n: n in heads, follow_exc=lambda n: False, start_edges="normal")
-            ctx.ob(R, f"{f.qual}: {norm(c)} inside `for {norm(l.target)} in {norm(l.iter)}` leaves the loop", again is None,
+            ob(R, f"{f.qual}: {norm(c)} inside `for {norm(l.target)} in {norm(l.iter)}` leaves the loop", again is None,
                    ctx.w(f, c), f"the loop runs once per item of the same message and goes on after the call: the second "
                    f"{call_attr(c)} of an already finalized message raises (swallowed as a hook failure) and a message of "
                    f"which only some items were handled is dropped all the same", cfg.describe_path(again) if again else None)
-    ctx.ob(R, f"{f.qual}: no per-item drop/send of the message inside loops over its own contents", True, f.where,
+    ob(R, f"{f.qual}: no per-item drop/send of the message inside loops over its own contents", True, f.where,
            f"{n_loop_sinks} call(s) inside such loops")
     seen_keys = set()
     for r in rets:
@@ -1407,9 +1439,10 @@ def r9(ctx):
             if isinstance(a, ast.If):
                 cond = norm(a.test)
                 break
-        ctx.ob(R, f"{f.qual}: `{norm(r.ast)}` under [{cond}] only after {msg} was dropped", path is None, ctx.w(f, r.ast),
+        ob(R, f"{f.qual}: `{norm(r.ast)}` under [{cond}] only after {msg} was dropped", path is None, ctx.w(f, r.ast),
                "the message is claimed (truthy return) on a path that never drops it: handle_proxied_packet returns "
                "without sending, dropping or acking it", cfg.describe_path(path) if path else None)
+    return all_ok[0]
 
 
 # --------------------------------------------------------------------------- R10
